@@ -134,6 +134,7 @@ type layoutChoice struct {
 	nested     bool     // an intermediate Pages node that carries the inheritable keys
 	revisions  int      // 1, or 2: the second revision replaces the first page's content
 	crlf       bool
+	predictor  bool // FlateDecode alone, with /DecodeParms << /Predictor 12 /Columns 16 >> and mixed PNG row filters
 }
 
 func (l layoutChoice) String() string {
@@ -162,6 +163,9 @@ func (l layoutChoice) String() string {
 	if l.crlf {
 		p = append(p, "CR LF line ends")
 	}
+	if l.predictor {
+		p = append(p, "PNG predictor rows")
+	}
 	return strings.Join(p, ", ")
 }
 
@@ -178,8 +182,8 @@ func writeDocument(l layoutChoice) ([]byte, []string) {
 	}
 	pages := [][]line{
 		{{"F1", "Hello", "Hello"}, {"F2", "AB", "ΩЖ"}, {"F1", "again", "again"}},
-		{{"F2", "BA", "ЖΩ"}, {"F1", "Second", "Second"}},
-		{{"F1", "Third", "Third"}, {"F1", "page", "page"}, {"F2", "A", "Ω"}},
+		{{"F2", "BA", "ЖΩ"}, {"F1", "Second", "Second"}, {"F3", "caf\\216 f\\220te", "caféfête"}},
+		{{"F1", "Third", "Third"}, {"F1", "page", "page"}, {"F2", "A", "Ω"}, {"F4", "it's `so'", "it’s‘so’"}},
 	}
 	content := func(ls []line) []string {
 		var parts []string
@@ -190,6 +194,12 @@ func writeDocument(l layoutChoice) ([]byte, []string) {
 	}
 	encode := func(data string) string {
 		out := data
+		if l.predictor {
+			for len(out)%16 != 0 {
+				out += " "
+			}
+			out = string(pngEncode([]byte(out), 16, 1, []int{2, 1, 4, 3, 0}))
+		}
 		for i := len(l.filter) - 1; i >= 0; i-- {
 			switch l.filter[i] {
 			case "ASCIIHexDecode":
@@ -207,12 +217,15 @@ func writeDocument(l layoutChoice) ([]byte, []string) {
 		return out
 	}
 	filterEntry := ""
+	if l.predictor {
+		filterEntry = " /DecodeParms << /Predictor 12 /Columns 16 >>"
+	}
 	switch len(l.filter) {
 	case 0:
 	case 1:
-		filterEntry = " /Filter /" + l.filter[0]
+		filterEntry += " /Filter /" + l.filter[0]
 	default:
-		filterEntry = " /Filter [/" + strings.Join(l.filter, " /") + "]"
+		filterEntry += " /Filter [/" + strings.Join(l.filter, " /") + "]"
 	}
 	// numbering: 1 catalog, 2 root Pages, 3 intermediate Pages (nested), 4.. pages, then fonts, streams and lengths
 	next := 4
@@ -221,8 +234,8 @@ func writeDocument(l layoutChoice) ([]byte, []string) {
 		pageNums[i] = next
 		next++
 	}
-	f1, f2, tu := next, next+1, next+2
-	next += 3
+	f1, f2, tu, f3, f4 := next, next+1, next+2, next+3, next+4
+	next += 5
 	var objs []pdfObj
 	var later []pdfObj // length objects that must come after their stream
 	stream := func(num int, dictExtra, data string) {
@@ -242,12 +255,13 @@ func writeDocument(l layoutChoice) ([]byte, []string) {
 			later = append(later, pdfObj{num: ln, body: fmt.Sprint(len(body))})
 		}
 	}
-	resources := fmt.Sprintf("/Resources << /Font << /F1 %d 0 R /F2 %d 0 R >> >> /MediaBox [0 0 612 792]", f1, f2)
+	resources := fmt.Sprintf("/Resources << /Font << /F1 %d 0 R /F2 %d 0 R /F3 %d 0 R /F4 %d 0 R >> >> /MediaBox [0 0 612 792]", f1, f2, f3, f4)
 	parent := 2
 	if l.nested {
 		parent = 3
 	}
 	var shows []string
+	var pageBodies []string
 	contentNums := make([][]int, len(pages))
 	for i, ls := range pages {
 		parts := content(ls)
@@ -278,21 +292,36 @@ func writeDocument(l layoutChoice) ([]byte, []string) {
 		if !l.nested {
 			own = " " + resources
 		}
-		objs = append(objs, pdfObj{num: pageNums[i], body: fmt.Sprintf("<< /Type /Page /Parent %d 0 R /Contents %s%s >>", parent, cs, own)})
+		pageBodies = append(pageBodies, fmt.Sprintf("/Contents %s%s", cs, own))
 	}
 	kids := ""
 	for _, n := range pageNums {
 		kids += fmt.Sprintf("%d 0 R ", n)
 	}
+	var nestedParents []int
 	if l.nested {
-		objs = append(objs, pdfObj{num: 2, body: fmt.Sprintf("<< /Type /Pages /Kids [3 0 R] /Count %d %s >>", len(pages), resources)})
-		objs = append(objs, pdfObj{num: 3, body: fmt.Sprintf("<< /Type /Pages /Parent 2 0 R /Kids [%s] /Count %d >>", strings.TrimSpace(kids), len(pages))})
+		// root -> [node 3, page 3]; node 3 -> [node X, page 2] (its /Count equals the number of its kids); node X -> [page 1]
+		x := next
+		next++
+		objs = append(objs, pdfObj{num: 2, body: fmt.Sprintf("<< /Type /Pages /Kids [3 0 R %d 0 R] /Count %d %s >>", pageNums[2], len(pages), resources)})
+		objs = append(objs, pdfObj{num: 3, body: fmt.Sprintf("<< /Type /Pages /Parent 2 0 R /Kids [%d 0 R %d 0 R] /Count 2 >>", x, pageNums[1])})
+		objs = append(objs, pdfObj{num: x, body: fmt.Sprintf("<< /Type /Pages /Parent 3 0 R /Kids [%d 0 R] /Count 1 >>", pageNums[0])})
+		nestedParents = []int{x, 3, 2}
 	} else {
-		objs = append(objs, pdfObj{num: 2, body: fmt.Sprintf("<< /Type /Pages /Kids [%s] /Count %d >>", strings.TrimSpace(kids), len(pages))})
+		objs = append(objs, pdfObj{num: 2, body: fmt.Sprintf("<< /Type /Pages /Kids [%s %% the leaves%s] /Count %d >>", strings.TrimSpace(kids), eol, len(pages))})
+	}
+	for i := range pages {
+		par := parent
+		if l.nested && i < len(nestedParents) {
+			par = nestedParents[i]
+		}
+		objs = append(objs, pdfObj{num: pageNums[i], body: fmt.Sprintf("<< /Type /Page /Parent %d 0 R %s >>", par, pageBodies[i])})
 	}
 	objs = append(objs, pdfObj{num: 1, body: "<< /Type /Catalog /Pages 2 0 R >>"})
 	objs = append(objs, pdfObj{num: f1, body: "<< /Type /Font /Subtype /Type1 /BaseFont /Helvetica /Encoding /WinAnsiEncoding >>"})
 	objs = append(objs, pdfObj{num: f2, body: fmt.Sprintf("<< /Type /Font /Subtype /Type1 /BaseFont /Times-Roman /ToUnicode %d 0 R >>", tu)})
+	objs = append(objs, pdfObj{num: f3, body: "<< /Type /Font /Subtype /TrueType /BaseFont /Arial /Encoding /MacRomanEncoding >>"})
+	objs = append(objs, pdfObj{num: f4, body: "<< /Type /Font /Subtype /Type1 /BaseFont /Courier /Encoding /StandardEncoding >>"})
 	// the CMap program is stored without the content filter
 	objs = append(objs, pdfObj{num: tu, isStream: true, body: fmt.Sprintf("<< /Length %d >>%sstream\n%s\nendstream", len(cmap), eol, cmap)})
 	objs = append(objs, later...)
@@ -424,6 +453,8 @@ func layoutChoices(thorough bool) []layoutChoice {
 		{filter: fl},
 		{filter: a85fl, xrefStream: true, pack: true, lengthMode: 1},
 		{filter: fl, split: true, nested: true, revisions: 2, crlf: true},
+		{filter: fl, predictor: true},
+		{filter: fl, predictor: true, xrefStream: true, pack: true, lengthMode: 2, split: true},
 		{crlf: true},
 		{xrefStream: true},
 		{xrefStream: true, pack: true},
@@ -466,7 +497,7 @@ func layoutChoices(thorough bool) []layoutChoice {
 // R1.13 [C01, C04]
 func rulePhysicalLayoutsEvaluated(c *eng.Ctx) {
 	const R = "R1.13-PHYSICAL-LAYOUTS-EVALUATED"
-	c.Rule(R, "reader.NewReader, PageCount, GetPage and ExtractText, evaluated on one logical document (three pages, a WinAnsi font and a font with a ToUnicode CMap) that the rule writes under combinations of the physical-layout choices - classic sections or cross-reference streams, objects packed in object streams, content behind FlateDecode, ASCIIHexDecode, ASCII85Decode or a chain of two of them, /Length direct or by reference to an object before or after the stream, a page's content in one stream or two, a flat page tree or a nested one whose inner node's parent carries Resources and MediaBox, one revision or an incremental update that replaces a page's content, LF or CR LF line ends: the page count is three and every page's text holds, in content order, exactly the characters its fonts define for the shown codes", 1, 0)
+	c.Rule(R, "reader.NewReader, PageCount, GetPage and ExtractText, evaluated on one logical document (three pages, a WinAnsi font and a font with a ToUnicode CMap) that the rule writes under combinations of the physical-layout choices - classic sections or cross-reference streams, objects packed in object streams, content behind FlateDecode, ASCIIHexDecode, ASCII85Decode or a chain of two of them, /Length direct or by reference to an object before or after the stream, a page's content in one stream or two, a flat page tree or a three-level one (a node whose /Count equals the number of its kids although one kid is a node itself; Resources and MediaBox on the root), one revision or an incremental update that replaces a page's content, LF or CR LF line ends, PNG predictor rows behind FlateDecode; the fonts are WinAnsi, MacRoman (codes above 127), StandardEncoding (the quote codes) and one with a ToUnicode CMap, and the /Kids array carries a comment: the page count is three and every page's text holds, in content order, exactly the characters its fonts define for the shown codes", 1, 0)
 	choices := layoutChoices(c.Tier == "thorough")
 	for _, l := range choices {
 		file, shows := writeDocument(l)
@@ -825,6 +856,19 @@ func htmlCases() []htmlCase {
 </body></html>`,
 			content: []string{"ialpha", "ibeta", "ione", "gx&amp", "gy", "gh&lt", "gi", "gl&", "169", "gm", "gp&amp", "gq", "gb&amp", "gc", "oa", "oinner", "gt&amp", "gu", "ov", "ohead", "ob", "oc", "olast"},
 			absent:  []string{"iscript", "istyle"},
+		},
+		{
+			name: "blocks inside inline elements: a block link, a span wrapper, an unclosed b",
+			markup: `<html><body>
+<a href="/x"><h3>vhead</h3><p>vpara</p></a>
+<span><ul><li>vitem</li></ul></span>
+<p>vmid <em>vem</em> <strong>vstrong</strong></p>
+<pre><span>vcodeone</span> <span>vcodetwo</span></pre>
+<b><p>vboldpara</p>
+<table><tr><td>vcell</td></tr></table>
+<blockquote>vquote</blockquote>
+</body></html>`,
+			content: []string{"vhead", "vpara", "vitem", "vmid", "vem", "vstrong", "vcodeone", "vcodetwo", "vboldpara", "vcell", "vquote"},
 		},
 		{
 			name: "unclosed paragraphs and items",
@@ -1217,6 +1261,52 @@ func ruleFluentExtractorEvaluated(c *eng.Ctx) {
 		}
 	}
 	fluentMore(c, R, run, map[string]*ssa.Function{"Pages": pagesF, "PageRange": rangeF, "Excl": exclF, "Text": textF}, body, wordsOfPages, ints)
+	{
+		// a longer document: the running lines are removed from the late pages as from the early ones
+		var long [][]pageLine
+		var want []string
+		for p := 1; p <= 24; p++ {
+			ls := []pageLine{{72, 760, "Running Title"}}
+			for k := 0; k < 3; k++ {
+				w := fmt.Sprintf("late%dline%d text%dx%d", p, k, p, k)
+				ls = append(ls, pageLine{72, 640 - 40*k, w})
+				want = append(want, strings.Fields(w)...)
+			}
+			ls = append(ls, pageLine{290, 30, fmt.Sprintf("Page %d", p)})
+			long = append(long, ls)
+		}
+		saved := file
+		file = writePages(long)
+		key := "tabula.(*Extractor).Text#ExcludeHeadersAndFooters on 24 pages"
+		opened, closed = 0, 0
+		words, failed, err := run([]step{{exclF, nil}}, nil)
+		switch {
+		case err != nil && !err.Panic:
+			c.Ok(R, key, exclF.Pos(), "not evaluated: "+err.Msg)
+		case err != nil:
+			c.Viol(R, key, exclF.Pos(), "the extractor is brought down: "+err.Msg)
+		default:
+			got := strings.Join(words, " ")
+			c.Check(!failed && got == strings.Join(want, " "), R, key, exclF.Pos(), "the running lines are removed from all 24 pages", "on a 24-page document the text with header and footer exclusion still holds running lines or lacks body text (first difference near "+firstDifference(got, strings.Join(want, " "))+")")
+		}
+		file = saved
+	}
+}
+
+func firstDifference(a, b string) string {
+	i := 0
+	for i < len(a) && i < len(b) && a[i] == b[i] {
+		i++
+	}
+	lo := i - 20
+	if lo < 0 {
+		lo = 0
+	}
+	hi := i + 30
+	if hi > len(a) {
+		hi = len(a)
+	}
+	return fmt.Sprintf("%q", a[lo:hi])
 }
 
 // fluentMore: exclusion combined with selections, a shared base derived from twice, an extractor used again.
@@ -1512,4 +1602,240 @@ func ruleHeaderFooterDetectionEvaluated(c *eng.Ctx) {
 		}
 		c.Check(bad == "", R, key, detect.Pos(), fmt.Sprintf("%d pages filtered to their body and their unrepeated marginal text", len(d.pages)), "header and footer exclusion removes something else than repeated marginal text, or leaves it: "+bad)
 	}
+}
+
+// ---------------------------------------------------------------------------------------------------------------
+// R6.18 content streams cut off at every byte.
+
+// R6.18 [C06, C02]
+func ruleTruncatedContentEvaluated(c *eng.Ctx) {
+	const R = "R6.18-TRUNCATED-CONTENT-EVALUATED"
+	c.Rule(R, "contentstream.NewParser(data).Parse, evaluated on every prefix of a set of content streams (text operators with literal and hex strings, escapes and octal codes, arrays with numbers and strings, names with #xx, dictionaries and inline-image-like operands, comments, reals with signs and leading points, nested arrays): every prefix is answered with operations or an error - the parser never reads past the end of a stream that is cut off", 1, 0)
+	newCS := c.P.FuncExact("contentstream.NewParser")
+	parseCS := c.P.FuncExact("contentstream.(*Parser).Parse")
+	if newCS == nil || parseCS == nil || len(newCS.Params) != 1 || len(parseCS.Params) != 1 {
+		c.Ok(R, "contentstream.(*Parser).Parse", token.NoPos, "parser entry points not found: not evaluated")
+		return
+	}
+	streams := []string{
+		"BT /F1 12 Tf 72 700 Td (Hello \\(world\\) \\101\\n) Tj ET",
+		"BT [(A) -120.5 (B) +3 .5 -.25 <48 65 6C6c6F> 4.] TJ T* (x) ' 1 2 (y) \" ET",
+		"q 1 0 0 1 10.5 -20 cm /Im#201 Do Q % trailing comment\n0.5 g 1 0 0 RG",
+		"/Tag << /MCID 3 /Name /A#42 /K [1 2 <</X (y)>>] >> BDC EMC\n[ [1 [2 3]] (a(b)c) ] TJ",
+		"10 20 m 30 40 l 10 10 50 50 re S f* B* W n <> Tj () Tj -0 Tw 00012 Tz",
+		"true false null /N Tj (line\\\ncontinued \\8 \\) ) Tj <4> Tj",
+	}
+	n, bad, skipped := 0, "", ""
+	for _, s := range streams {
+		for k := 0; k <= len(s) && bad == "" && skipped == ""; k++ {
+			ev := eng.NewEvaluator()
+			ev.Steps = 600000
+			ev.MaxDepth = 60
+			p, err := ev.Call(newCS, []any{eng.BytesOf([]byte(s[:k]))}, 0)
+			if err == nil {
+				_, err = ev.Call(parseCS, []any{p}, 0)
+			}
+			if err != nil && !err.Panic {
+				skipped = fmt.Sprintf("%q: %s", s[:k], err.Msg)
+				break
+			}
+			n++
+			if err != nil {
+				bad = fmt.Sprintf("the stream %q (cut off after %d bytes): %s", s[:k], k, err.Msg)
+			}
+		}
+	}
+	if skipped != "" {
+		c.Ok(R, "contentstream.(*Parser).Parse", parseCS.Pos(), "not evaluated: "+skipped)
+		return
+	}
+	c.Check(bad == "", R, "contentstream.(*Parser).Parse#prefixes", parseCS.Pos(), fmt.Sprintf("%d prefixes answered with operations or an error", n), "a content stream that is cut off brings the parser down: "+bad)
+}
+
+// ---------------------------------------------------------------------------------------------------------------
+// R7.16 the encoding names select their own tables.
+
+// R7.16 [C07]
+func ruleEncodingNamesEvaluated(c *eng.Ctx) {
+	const R = "R7.16-ENCODING-NAMES-EVALUATED"
+	c.Rule(R, "font.GetEncoding(name).DecodeString, evaluated for the six encoding names of the PDF specification on the bytes that tell the encodings apart (0x80 in WinAnsi is the euro sign and in MacRoman A-dieresis; 0x18 in PDFDocEncoding is the breve; 0x27 and 0x60 in StandardEncoding are the curly quotes; 0x61 in Symbol is alpha; 0x21 in ZapfDingbats is the upper blade scissors; 0x41 is A in the four Latin encodings) and for an unknown name (WinAnsi): every name selects its own table", 1, 0)
+	get := c.P.FuncExact("font.GetEncoding")
+	if get == nil || len(get.Params) != 1 {
+		c.Ok(R, "font.GetEncoding", token.NoPos, "font.GetEncoding not found: not evaluated")
+		return
+	}
+	type pt struct {
+		name string
+		b    byte
+		want string
+	}
+	pts := []pt{
+		{"WinAnsiEncoding", 0x80, "€"}, {"WinAnsiEncoding", 0x41, "A"}, {"WinAnsiEncoding", 0xE9, "é"},
+		{"MacRomanEncoding", 0x80, "Ä"}, {"MacRomanEncoding", 0x8E, "é"}, {"MacRomanEncoding", 0x41, "A"},
+		{"PDFDocEncoding", 0x18, "˘"}, {"PDFDocEncoding", 0x41, "A"},
+		{"StandardEncoding", 0x27, "’"}, {"StandardEncoding", 0x60, "‘"}, {"StandardEncoding", 0x41, "A"},
+		{"SymbolEncoding", 0x61, "α"},
+		{"ZapfDingbatsEncoding", 0x21, "✁"},
+		{"NoSuchEncoding", 0x80, "€"},
+	}
+	n, bad, skipped := 0, "", ""
+	for _, p := range pts {
+		ev := eng.NewEvaluator()
+		ev.Steps = 2000000
+		enc, err := ev.Call(get, []any{p.name}, 0)
+		var got any
+		if err == nil {
+			got, err = ev.Method(get.Prog, enc, "DecodeString", eng.BytesOf([]byte{p.b}))
+			if err != nil && !err.Panic {
+				var r any
+				r, err = ev.Method(get.Prog, enc, "Decode", int64(p.b))
+				if err == nil {
+					if rv, ok := r.(int64); ok {
+						got = string(rune(rv))
+					}
+				}
+			}
+		}
+		if err != nil && !err.Panic {
+			skipped = p.name + ": " + err.Msg
+			break
+		}
+		n++
+		if err != nil {
+			bad = p.name + ": " + err.Msg
+			break
+		}
+		if s, _ := got.(string); s != p.want {
+			bad = fmt.Sprintf("GetEncoding(%q) decodes 0x%02X to %q; in that encoding it is %q", p.name, p.b, got, p.want)
+			break
+		}
+	}
+	if skipped != "" {
+		c.Ok(R, "font.GetEncoding", get.Pos(), "not evaluated: "+skipped)
+		return
+	}
+	c.Check(bad == "", R, "font.GetEncoding#names", get.Pos(), fmt.Sprintf("%d distinguishing bytes decoded", n), "an encoding name selects another encoding's table: "+bad)
+}
+
+func init() {
+	eng.DecidedByEvaluation["R19.3-CACHE-KEY"] = []string{"R19.18-HTML-DOCUMENTS-EVALUATED"}
+	eng.DecidedByEvaluation["R19.11-TABLE-SECTIONS"] = []string{"R19.18-HTML-DOCUMENTS-EVALUATED"}
+	eng.DecidedByEvaluation["R7.2-NAME-DISPATCH"] = []string{"R7.16-ENCODING-NAMES-EVALUATED"}
+	eng.DecidedByEvaluation["R2.17-CURSOR-READS-GUARDED"] = []string{"R6.18-TRUNCATED-CONTENT-EVALUATED"}
+	eng.DecidedByEvaluation["R6.2-ESCAPES"] = []string{"R6.17-OBJECT-SPELLINGS-EVALUATED"}
+	eng.DecidedByEvaluation["R5.1-FILTER-NAMES"] = []string{"R5.22-ASCII-CHAINS-EVALUATED"}
+	eng.DecidedByEvaluation["R5.2-CHAIN-ORDER"] = []string{"R5.22-ASCII-CHAINS-EVALUATED"}
+	eng.DecidedByEvaluation["R5.9-FILTER-PARMS-PARALLEL"] = []string{"R5.22-ASCII-CHAINS-EVALUATED"}
+}
+
+// ---------------------------------------------------------------------------------------------------------------
+// R13.14 chunking with overlap, asked twice of one chunker.
+
+// synthModelDocument builds a model.Document value of the evaluator from page descriptions (headings, paragraphs, lists).
+func synthModelDocument(c *eng.Ctx, pagesSpec []synthDocPage) (any, bool) {
+	docT, pageT, layT := c.P.NamedType("model", "Document"), c.P.NamedType("model", "Page"), c.P.NamedType("model", "PageLayout")
+	headT, paraT, listT, itemT := c.P.NamedType("model", "HeadingInfo"), c.P.NamedType("model", "ParagraphInfo"), c.P.NamedType("model", "ListInfo"), c.P.NamedType("model", "ListItem")
+	if docT == nil || pageT == nil || layT == nil || headT == nil || paraT == nil || listT == nil || itemT == nil {
+		return nil, false
+	}
+	ptr := func(v any) *eng.EPtr {
+		loc := &eng.ELoc{V: v}
+		return &eng.EPtr{Get: func() any { return loc.V }, Set: func(x any) { loc.V = x }, Loc: loc}
+	}
+	var pages []any
+	for pi, sp := range pagesSpec {
+		lay := eng.ZeroOf(layT).(*eng.EStruct)
+		var hs, ps, ls []any
+		for _, h := range sp.headings {
+			hv := eng.ZeroOf(headT).(*eng.EStruct)
+			eng.SetField(hv, headT, "Level", int64(h[0].(int)))
+			eng.SetField(hv, headT, "Text", h[1].(string))
+			eng.SetField(hv, headT, "Confidence", 0.9)
+			hs = append(hs, hv)
+		}
+		for i, p := range sp.paras {
+			pv := eng.ZeroOf(paraT).(*eng.EStruct)
+			eng.SetField(pv, paraT, "Index", int64(i))
+			eng.SetField(pv, paraT, "Text", p)
+			ps = append(ps, pv)
+		}
+		for _, l := range sp.lists {
+			lv := eng.ZeroOf(listT).(*eng.EStruct)
+			var its []any
+			for _, it := range l.items {
+				iv := eng.ZeroOf(itemT).(*eng.EStruct)
+				eng.SetField(iv, itemT, "Text", it)
+				eng.SetField(iv, itemT, "Bullet", "•")
+				its = append(its, iv)
+			}
+			eng.SetField(lv, listT, "Items", eng.SliceOf(its...))
+			eng.SetField(lv, listT, "Type", int64(1))
+			ls = append(ls, lv)
+		}
+		eng.SetField(lay, layT, "Headings", eng.SliceOf(hs...))
+		eng.SetField(lay, layT, "Paragraphs", eng.SliceOf(ps...))
+		eng.SetField(lay, layT, "Lists", eng.SliceOf(ls...))
+		pg := eng.ZeroOf(pageT).(*eng.EStruct)
+		eng.SetField(pg, pageT, "Number", int64(pi+1))
+		eng.SetField(pg, pageT, "Width", 612.0)
+		eng.SetField(pg, pageT, "Height", 792.0)
+		eng.SetField(pg, pageT, "Layout", ptr(lay))
+		pages = append(pages, ptr(pg))
+	}
+	doc := eng.ZeroOf(docT).(*eng.EStruct)
+	eng.SetField(doc, docT, "Pages", eng.SliceOf(pages...))
+	return ptr(doc), true
+}
+
+// R13.14 [C13, C03]
+func ruleOverlapAskedTwiceEvaluated(c *eng.Ctx) {
+	const R = "R13.14-OVERLAP-ASKED-TWICE-EVALUATED"
+	c.Rule(R, "rag.(*Chunker).ChunkWithOverlapEnabled, evaluated three times in a row on one chunker and one document (a long section that is split into several chunks): every call returns the same chunk texts and overlaps, and the result of rag.(*Chunker).Chunk on the same document is the same before and after - the overlap of a chunk is cut from its predecessor's own content, not from text that already carries an overlap", 1, 0)
+	newC := c.P.FuncExact("rag.NewChunker")
+	chunk := c.P.FuncExact("rag.(*Chunker).Chunk")
+	over := c.P.FuncExact("rag.(*Chunker).ChunkWithOverlapEnabled")
+	if newC == nil || chunk == nil || over == nil || len(over.Params) != 2 {
+		c.Ok(R, "rag.(*Chunker).ChunkWithOverlapEnabled", token.NoPos, "chunker entry points not found: not evaluated")
+		return
+	}
+	_, docs := synthDocuments()
+	doc, ok := synthModelDocument(c, docs["a long section with a minor heading before a list introduction"])
+	if !ok {
+		c.Ok(R, "rag.(*Chunker).ChunkWithOverlapEnabled", over.Pos(), "not evaluated: document types not found")
+		return
+	}
+	ev := eng.NewEvaluator()
+	ev.Steps = 60000000
+	ev.MaxDepth = 40
+	var dumps []string
+	ck, err := ev.Call(newC, nil, 0)
+	for _, fn := range []*ssa.Function{chunk, over, over, over, chunk} {
+		if err != nil {
+			break
+		}
+		var got any
+		got, err = ev.Call(fn, []any{ck, doc}, 0)
+		if err == nil {
+			if t, ok := got.(eng.ETuple); ok && len(t) == 2 && t[1] == nil {
+				chs, _ := evalField(t[0], fn.Signature.Results().At(0).Type(), "Chunks")
+				dumps = append(dumps, dumpVal(chs, 0))
+			} else {
+				dumps = append(dumps, "(refused)")
+			}
+		}
+	}
+	if err != nil && !err.Panic {
+		c.Ok(R, "rag.(*Chunker).ChunkWithOverlapEnabled", over.Pos(), "not evaluated: "+err.Msg)
+		return
+	}
+	bad := ""
+	switch {
+	case err != nil:
+		bad = "the chunker is brought down: " + err.Msg
+	case len(dumps) == 5 && (dumps[1] != dumps[2] || dumps[2] != dumps[3]):
+		bad = "the second or third call returns other chunks than the first: what a call returns depends on the calls before it"
+	case len(dumps) == 5 && dumps[0] != dumps[4]:
+		bad = "Chunk returns other chunks after the overlap calls than before them: the calls write into chunks they share"
+	}
+	c.Check(bad == "", R, "rag.(*Chunker).ChunkWithOverlapEnabled#asked three times", over.Pos(), "three calls and the plain chunking before and after agree", bad)
 }
